@@ -132,8 +132,9 @@ pub fn run_spaces(ctx: &Ctx, prop: &'static str, spaces: &[Space]) -> JobOut {
             if spaces[*i].label.starts_with("near-max") || spaces[*i].label == "huge period" {
                 continue;
             }
-            jobs2.push((*i, *a, Via::Serde));
-            jobs2.push((*i, *a, Via::Clone));
+            for v in VIAS {
+                jobs2.push((*i, *a, v));
+            }
         }
         let outs = par_run(ctx, &jobs2, |_, (i, a, via)| {
             let sp = &spaces[*i];
